@@ -22,7 +22,7 @@ RULE = ("one case = (project state, subcommand + flags, working directory); non-
 TRUSTED = ["fake kernel contract (DESIGN 4) for task children; real tar, tmpfs, sqlite", "reference run from the project root"]
 ASSUMPTIONS = ["one invocation at a time", "the clock is the same for both runs"]
 
-STATES = ("fresh", "after-successful-run", "after-failed-run", "after-two-failed-runs")
+STATES = ("fresh", "after-successful-run", "after-failed-run", "after-two-failed-runs", "eighteen-recorded-versions")
 # "vendor" is a nested repository (has its own .git) inside the project; the last two are leftover output
 # directories of failed runs (they exist only in the corresponding states; gc deletes them while running there)
 CWDS = ("pkg", "docs", "cond-out", "cond-out/pkg", "pkg/sub", "pkg/sub/a/b/c/d/e/f", "vendor", "vendor/lib", "cond-out/pkg/t.task.500", "cond-out/pkg/t.task.501")
@@ -88,6 +88,10 @@ def build(state, base):
     (proj.root / "vendor" / "lib").mkdir()
     proj.out.mkdir()
     (proj.out / "pkg").mkdir()
+    if state == "eighteen-recorded-versions":
+        for n in range(18):
+            proj.add_version("//pkg:t", 300 + n)
+        return proj
     if state != "fresh":
         for n in range(2 if state == "after-two-failed-runs" else 1):
             k = fakeos.Kernel(Sch(fail=(state != "after-successful-run")), clock=fakeos.Clock(lambda i, n=n: 500.0 + n))
@@ -188,7 +192,7 @@ def _short(x):
 
 def spaces(tier):
     return [Space("commands-x-directories", make(),
-                  "%d command lines x 4 project states x 10 directories inside the project (one of them 8 levels deep) (package dir, dir without COND, cond-out, "
+                  "%d command lines x 5 project states (the last one with 18 recorded versions) x 10 directories inside the project (one of them 8 levels deep) (package dir, dir without COND, cond-out, "
                   "package dir under cond-out, nested sub-directory, a nested git repository and a directory below it, leftover "
                   "output directories of failed runs) + outside the project" % len(COMMANDS), depth=3,
                   goals=["command outside any project", "a location is reported from a sub-directory", "archive/restore from a sub-directory succeeds"],
